@@ -150,6 +150,10 @@ class ContractTable:
     def after_construct(self, I, o):
         if getattr(o.cls, "name", None) == "Point":
             I.ghost.setdefault("points", {})[spec.point_name(I, o)] = o
+        if getattr(o.cls, "name", None) in ("Partial", "Derivative", "Differential", "LocatedDifferential"):
+            # a derivative object may have been queried any number of times before
+            from .harness import arbitrary_history
+            arbitrary_history(I, o)
 
     # ------------------------------------------------------------------ refinement
     def refine(self, I, o, cls):
